@@ -140,6 +140,9 @@ PLANS['C03'] = parse_plan('For every enumerated text on which even the lenient d
                           'TLC checks ParseMachine.tla against the lenient declarative grammar (must-reject class) on enumerated universes incl. all single-byte edits of accepted texts; real parser must reject with zero allocation balance')
 PLANS['C10'] = parse_plan('The parse-end, error-position and termination clauses are asserted by TLC on the transcription for every enumerated buffer and flag, and checked on the real calls: end inside the buffer and prefix re-parses to an equal tree, termination success only before a zero byte, error pointer equal to the global one and inside the buffer, NULL after success.',
                           'TLC asserts the end/error/termination clauses on ParseMachine.tla for every enumerated buffer x flag; real calls checked for pointer bounds, prefix re-parse, termination rule, global error pointer')
+# C10's failure clause (NULL result, error position stored, equal to the global one, inside the buffer) also under a refused allocation request
+PLANS['C10']['quick'] = PLANS['C10']['quick'] + [parse_run('tok5fail', 'tok', 5, 1000, failinject=True)]
+PLANS['C10']['thorough'] = PLANS['C10']['thorough'] + [parse_run('tok7fail', 'tok', 7, 1000, failinject=True)]
 # ------------------------------------------------------------------------------------------------ printer
 def print_run(name, tier, flavour='plain', failinject=False, extra=''):
     return {'name': name, 'module': 'MC_Print', 'mode': 'print', 'flavour': flavour,
@@ -165,6 +168,11 @@ PLANS['C09'] = print_plan('TLC runs the buffer machine with noalloc for every tr
 # phase C: histories recorded from the real library (10 nodes, hundreds of calls) validated by Trace_Tree.tla
 def tracetree(histories, steps, nodes=10):
     return {'name': 'trace%d' % nodes, 'kind': 'tracetree', 'histories': histories, 'steps': steps, 'nodes': nodes}
+# phase C for the library as a whole: histories that mix tree edits with parse / print / compare / pointer / patch / merge patch / generation calls on
+# one pool of nodes, validated step by step by Trace_Lib.tla (value-level calls judged on the value a node denotes); focus = the call kind that
+# gets half of the value-level steps (0 parse, 3 print, 6 compare, 8 pointer, 10 apply, 12 merge, 13 generate, 15 generate merge)
+def tracelib(histories, steps, focus=-1, nodes=24):
+    return {'name': 'lib%d' % nodes, 'kind': 'tracetree', 'lib': True, 'focus': focus, 'histories': histories, 'steps': steps, 'nodes': nodes}
 for _p in ('C06', 'C07', 'C11', 'C19'):
     PLANS[_p]['quick'] = PLANS[_p]['quick'] + [tracetree(25, 160), tracetree(10, 250, 16)]
     PLANS[_p]['thorough'] = PLANS[_p]['thorough'] + [tracetree(300, 250), tracetree(150, 400, 16), tracetree(40, 600, 24)]
@@ -485,8 +493,10 @@ def run_tracetree(prop, run, outdir, bins, seed, V, REPO):
     t0 = time.time()
     res = {'name': run['name'], 'stdout': '', 'stderr': '', 'rc': 0, 'states': 0, 'transitions': 0, 'stats': {}, 'samples': [], 'tlc_error': None, 'traces': 0}
     trace = os.path.join(outdir, run['name'] + '.ndjson'); stats = os.path.join(outdir, run['name'] + '.stats.json')
-    r = subprocess.run('%s treerand --prop %s --out %s --trace %s --stats %s --histories %d --steps %d --seed %d --nodes %d' %
-                       (bins['plain'], prop, outdir, trace, stats, run['histories'], run['steps'], seed, run.get('nodes', 10)), shell=True, capture_output=True, text=True)
+    lib = run.get('lib')
+    r = subprocess.run('%s treerand --prop %s --out %s --trace %s --stats %s --histories %d --steps %d --seed %d --nodes %d%s' %
+                       (bins['plain'], prop, outdir, trace, stats, run['histories'], run['steps'], seed, run.get('nodes', 10),
+                        (' --lib --focus %d' % run.get('focus', -1)) if lib else ''), shell=True, capture_output=True, text=True)
     out = [l for l in r.stdout.splitlines() if l.startswith('VIOLATION')]
     try:
         res['stats'] = json.load(open(stats))
@@ -499,7 +509,7 @@ def run_tracetree(prop, run, outdir, bins, seed, V, REPO):
     verdict = None
     for attempt in range(2):       # a rejection is reported only if a second validation repeats it
         md = os.path.join(outdir, 'md-' + run['name'])
-        t = subprocess.run('cd %s/spec && timeout 1800 ../tools/tlc.sh -workers 1 -metadir %s -config %s Trace_Tree.tla 2>&1' % (V, md, cfg), shell=True, capture_output=True, text=True, env=dict(os.environ, TRACE=trace))
+        t = subprocess.run('cd %s/spec && timeout 1800 ../tools/tlc.sh -workers 1 -metadir %s -config %s %s.tla 2>&1' % (V, md, cfg, 'Trace_Lib' if lib else 'Trace_Tree'), shell=True, capture_output=True, text=True, env=dict(os.environ, TRACE=trace))
         shutil.rmtree(md, ignore_errors=True)
         open(os.path.join(outdir, run['name'] + '.tlc.out'), 'w').write(t.stdout)
         m = re.search(r'<<"TRACE-(ACCEPTED|REJECTED)", (\d+)>>', t.stdout)
@@ -512,11 +522,19 @@ def run_tracetree(prop, run, outdir, bins, seed, V, REPO):
         if m and m.group(1) == 'ACCEPTED' and not inv:
             verdict = ('ok', int(m.group(2))); break
         if inv:
-            verdict = ('inv', inv.group(1))
+            lm = None
+            for lm in re.finditer(r'/\\ l = (\d+)', t.stdout):
+                pass
+            verdict = ('inv', inv.group(1), (int(lm.group(1)) - 1) if lm else None)
         elif m:
             verdict = ('rej', int(m.group(2)))
         else:
             verdict = ('err', t.stdout[-300:])
+    if lib:       # vacuity control: how many value-level calls had a verdict determined by the specification
+        det = {}
+        for m2 in re.finditer(r'<<"D", "(\w+)", (TRUE|FALSE)>>', t.stdout):
+            d = det.setdefault(m2.group(1), [0, 0]); d[0 if m2.group(2) == 'TRUE' else 1] += 1
+        res['stats']['value_calls_determined_open'] = {k: '%d:%d' % (v[0] // 2, v[1] // 2) for k, v in sorted(det.items())}
     if verdict[0] == 'ok':
         res['traces'] = res['stats'].get('histories', 0)
         try:
@@ -527,7 +545,7 @@ def run_tracetree(prop, run, outdir, bins, seed, V, REPO):
         res['tlc_error'] = 'trace validation did not finish: ' + str(verdict[1])
     else:
         lines = open(trace).read().splitlines()
-        idx = verdict[1] if verdict[0] == 'rej' else None
+        idx = verdict[1] if verdict[0] == 'rej' else (verdict[2] if len(verdict) > 2 else None)
         ev = lines[idx - 1] if idx else ''
         act = ''
         try:
@@ -535,7 +553,23 @@ def run_tracetree(prop, run, outdir, bins, seed, V, REPO):
         except Exception:
             pass
         owners = {'C06'} | ({'C11'} if act == 'Duplicate' else set()) | ({'C19'} if act == 'SortObject' else set()) | ({'C07'} if verdict[0] == 'inv' else set())
-        if prop in owners or verdict[0] == 'inv':
+        if lib:
+            OWN = {'Parse': {'C01', 'C02', 'C03'}, 'Print': {'C04', 'C05'}, 'Compare': {'C12'}, 'GetPointer': {'C15'}, 'FindPointer': {'C15'}, 'ApplyPatches': {'C16'},
+                   'MergePatch': {'C18'}, 'GenerateMergePatch': {'C18'}, 'GeneratePatches': {'C17'}}
+            if act in OWN:
+                owners = set(OWN[act]) | ({'C07'} if verdict[0] == 'inv' else set()) | ({'C19'} if verdict[0] == 'inv' and act in ('ApplyPatches', 'GeneratePatches', 'GenerateMergePatch') else set())
+            # an edit that follows a utility call in the same history also belongs to that utility's property (C19 second clause, C16-C18 "can still be edited")
+            k = (idx or 1) - 2
+            while k >= 0 and '"e":"Reset"' not in lines[k]:
+                try:
+                    pa = json.loads(lines[k])['a'][0]
+                except Exception:
+                    pa = ''
+                if pa in ('ApplyPatches', 'GeneratePatches', 'GenerateMergePatch', 'SortObject'):
+                    owners.add('C19')
+                owners |= OWN.get(pa, set()) & {'C16', 'C17', 'C18'}
+                k -= 1
+        if prop in owners or (verdict[0] == 'inv' and not lib):
             rp = os.path.join(outdir, '%s-trace.case' % prop)
             open(rp, 'w').write('# trace %s, event %s\n%s\n' % (trace, idx, ev))
             what = ('invariant %s fails on the recorded heap' % verdict[1]) if verdict[0] == 'inv' else ('recorded step %d (%s) is not a step of Tree.tla: post-heap / result / query answers differ from every admitted outcome' % (idx, act))
@@ -572,6 +606,11 @@ for _p in ('C17', 'C18'):       # generation sorts both documents: the scale dir
 PLANS['C06']['quick'] = PLANS['C06']['quick'] + [big_run('keylens', 'keys')]
 PLANS['C06']['thorough'] = PLANS['C06']['thorough'] + [big_run('keylens', 'keys')]
 
+# phase C, library level (Trace_Lib.tla)
+for _p, _f in (('C02', 0), ('C03', 0), ('C04', 3), ('C05', 3), ('C06', -1), ('C07', -1), ('C11', -1), ('C12', 6), ('C15', 8), ('C16', 10), ('C17', 13), ('C18', 12), ('C19', 13)):
+    PLANS[_p]['quick'] = PLANS[_p]['quick'] + [tracelib(8, 250, _f)]
+    PLANS[_p]['thorough'] = PLANS[_p]['thorough'] + [tracelib(120, 400, _f), tracelib(40, 500, _f, 32)]
+    PLANS[_p]['rule'] = PLANS[_p]['rule'] + '; plus seeded random histories of the library as a whole (tree edits mixed with parse, print, compare, pointer, patch, merge-patch and generation calls on one pool of 24 nodes), every step validated by Trace_Lib.tla'
 # ---------------------------------------------------------------------------------------------- what the later tiers add (texts for evidence)
 PLANS['C15']['rule'] += '; index tokens congruent to small indices modulo 2^32 / 2^64; ladders of tokens of 256 - 2048 raw bytes with the escape at the cut under object, array and scalar parents; every lookup and construction repeated with left-over keys on array elements and with ownership flags'
 PLANS['C16']['rule'] += '; index tokens beyond 2^31 / 2^32 / 2^64 and member names of 256 / 300 bytes in every path position; test values that repeat a member name; every case also on documents and patches built with constant keys and string references'
